@@ -70,7 +70,6 @@ macro_rules! int_to_int {
                 let null_mode: bool = kani::any();
                 let behavior = if null_mode { CastFailBehavior::Null } else { CastFailBehavior::Error };
                 let want = <$t2>::try_from(v).ok();
-                kani::cover!(want.is_none());
                 kani::cover!(want.is_some());
                 let res = run_cast!(PrimToPrim<$S1, $S2>, &(), behavior, ok(Array::try_from_iter([v])), $S2, DataType::$dt());
                 match want {
